@@ -83,6 +83,13 @@ def check_enumerate(case):
     facts = dict(schema=case["schema"])
     ref = list(pipegen.walk(pipe))
     got = list(_hp.enumerate_pipeline_models(pipe))
+    if len(got) != len(ref):
+        # the statement does not say whether the remainder of a ColumnTransformer counts as a nested estimator: an implementation that
+        # enumerates it (after the transformers) is held to the same rules, one that does not is too
+        ref_r = list(pipegen.walk(pipe, remainder=True))
+        if len(ref_r) == len(got):
+            ref = ref_r
+            facts["remainder_enumerated"] = True
     require(len(got) == len(ref), "enumerate:count", "%d models yielded, the pipeline nests %d" % (len(got), len(ref)), facts)
     coors = []
     for (coor, model, vs), (depth, obj, cols) in zip(got, ref):
